@@ -12214,7 +12214,8 @@ C_<TN_, TA_, SG_, TH_, TS_...>::deepForwardRequest(Control& control,
 
 	const Prong requested = compoRequested(control);
 
-	if (requested != INVALID_PRONG)
+	// the destination of a request is resolved by that request, whatever an earlier one of the round left here
+	if (requested != INVALID_PRONG && request.destination != HEAD_ID)
 		SubStates::wideForwardRequest(control, request, requested);
 	else
 		deepRequest					 (control, request);
@@ -13987,6 +13988,7 @@ struct HFSM2_EMPTY_BASES O_
 
 	HFSM2_CONSTEXPR(14)	void		deepRequest			 (	   Control& control, const Request request)			noexcept;
 
+	HFSM2_CONSTEXPR(14)	void		 requestAllProngs	  (	 Control& control)								noexcept;
 	HFSM2_CONSTEXPR(14)	void		deepRequestChange	 (	   Control& control, const Request request)			noexcept;
 	HFSM2_CONSTEXPR(14)	void		deepRequestRestart	 (	   Control& control, const Request request)			noexcept;
 	HFSM2_CONSTEXPR(14)	void		deepRequestResume	 (	   Control& control, const Request request)			noexcept;
@@ -14260,6 +14262,7 @@ O_<TN_, TA_, TH_, TS_...>::deepForwardActive(Control& control,
 	if (requested)
 		SubStates::wideForwardActive(control, request, requested);
 	else
+	if (request.destination == HEAD_ID)
 		// no prong addressed: this region itself is the destination
 		deepRequest					(control, request);
 }
@@ -14274,7 +14277,7 @@ O_<TN_, TA_, TH_, TS_...>::deepForwardRequest(Control& control,
 
 	const ProngCBits requested = orthoRequested(static_cast<const Control&>(control));
 
-	if (requested)
+	if (requested && request.destination != HEAD_ID)
 		SubStates::wideForwardRequest(control, request);
 	else
 		deepRequest					 (control, request);
@@ -14323,10 +14326,24 @@ O_<TN_, TA_, TH_, TS_...>::deepRequest(Control& control,
 template <typename TN_, typename TA_, typename TH_, typename... TS_>
 HFSM2_CONSTEXPR(14)
 void
+O_<TN_, TA_, TH_, TS_...>::requestAllProngs(Control& control) noexcept {
+	// a region resolved as a whole is marked so: later requests of the round then follow its requested sub-states
+	// instead of resolving it again by their own kind
+	ProngBits requested = orthoRequested(control);
+
+	for (Prong i = 0; i < WIDTH; ++i)
+		requested.set(i);
+}
+
+template <typename TN_, typename TA_, typename TH_, typename... TS_>
+HFSM2_CONSTEXPR(14)
+void
 O_<TN_, TA_, TH_, TS_...>::deepRequestChange(Control& control,
 											 const Request request) noexcept
 {
 	HFSM2_IF_TRANSITION_HISTORY(control.pinLastTransition(HEAD_ID, request.index));
+
+	requestAllProngs(control);
 
 	SubStates::wideRequestChange(control, request);
 }
@@ -14339,6 +14356,8 @@ O_<TN_, TA_, TH_, TS_...>::deepRequestRestart(Control& control,
 {
 	HFSM2_IF_TRANSITION_HISTORY(control.pinLastTransition(HEAD_ID, request.index));
 
+	requestAllProngs(control);
+
 	SubStates::wideRequestRestart(control, request);
 }
 
@@ -14350,6 +14369,8 @@ O_<TN_, TA_, TH_, TS_...>::deepRequestResume(Control& control,
 {
 	HFSM2_IF_TRANSITION_HISTORY(control.pinLastTransition(HEAD_ID, request.index));
 
+	requestAllProngs(control);
+
 	SubStates::wideRequestResume(control, request);
 }
 
@@ -14360,6 +14381,8 @@ O_<TN_, TA_, TH_, TS_...>::deepRequestSelect(Control& control,
 											 const Request request) noexcept
 {
 	HFSM2_IF_TRANSITION_HISTORY(control.pinLastTransition(HEAD_ID, request.index));
+
+	requestAllProngs(control);
 
 	SubStates::wideRequestSelect(control, request);
 }
@@ -14374,6 +14397,8 @@ O_<TN_, TA_, TH_, TS_...>::deepRequestUtilize(Control& control,
 {
 	HFSM2_IF_TRANSITION_HISTORY(control.pinLastTransition(HEAD_ID, request.index));
 
+	requestAllProngs(control);
+
 	SubStates::wideRequestUtilize(control, request);
 }
 
@@ -14384,6 +14409,8 @@ O_<TN_, TA_, TH_, TS_...>::deepRequestRandomize(Control& control,
 												const Request request) noexcept
 {
 	HFSM2_IF_TRANSITION_HISTORY(control.pinLastTransition(HEAD_ID, request.index));
+
+	requestAllProngs(control);
 
 	SubStates::wideRequestRandomize(control, request);
 }
